@@ -29,6 +29,7 @@ import (
 	clienttypes "github.com/cosmos/ibc-go/v11/modules/core/02-client/types"
 	channeltypes "github.com/cosmos/ibc-go/v11/modules/core/04-channel/types"
 	ibctesting "github.com/cosmos/ibc-go/v11/testing"
+	ibcmock "github.com/cosmos/ibc-go/v11/testing/mock"
 
 	"verif/harness/core"
 	"verif/harness/ksim"
@@ -547,6 +548,11 @@ func (s *FW) Init(wk *ksim.Worker) *ksim.World {
 	for i := range links {
 		l := w.SetupClients(i, i+1)
 		w.SetupConnection(l, 0)
+		if i == 0 {
+			// asymmetric identifiers on every link: an unfinished mock-port handshake takes channel-0 on chain 0, so
+			// that link 0-1 is channel-1 <-> channel-0 (link 1-2 is channel-1 <-> channel-0 by construction)
+			ksim.MustOK("offset channel on chain 0", w.Tx(0, channeltypes.NewMsgChannelOpenInit(ibcmock.PortID, ibcmock.Version, channeltypes.UNORDERED, []string{l.ConnA}, ibcmock.PortID, ksim.Signer)))
+		}
 		ch := w.SetupChannel(l, port, port, transfertypes.V1, channeltypes.UNORDERED)
 		links[i] = linkInfo{L: l, Ch: ch}
 	}
